@@ -552,7 +552,7 @@ class Harness:
                     self.ctx.probe("persist_restore")
                 self.upd_buf[name] = []
                 self.allowed[name] = []
-                mdl.load(saved)
+                mdl.load(saved, now, self.sidx())
             else:
                 if mdl.timer.running():
                     self.ctx.probe("mode_stop_with_timer")
